@@ -20,3 +20,11 @@ pub use self::service::{
     MEM_BROKER_API_VERSION,
 };
 pub use self::store::MetaStoreError;
+
+#[cfg(undermoon_verif)]
+pub use self::service::{MemBrokerConfigPayload, ProxyResourcePayload};
+#[cfg(undermoon_verif)]
+pub use self::store::{
+    ChunkRolePosition, ChunkStore, ClusterInfo, ClusterStore, MetaStore, MigrationSlots,
+    ProxyResource,
+};
